@@ -554,6 +554,22 @@ impl Handle {
         self.0.cv.notify_all();
     }
 
+    /// The server closes channel `ch` - unless it has already seen the client's own
+    /// Channel.Close for it (then there is nothing left to close). Atomic with respect to
+    /// the broker's view of the client's byte stream. Returns whether the Close was sent.
+    pub fn server_close_channel(&self, ch: u16, code: u16, text: &str) -> bool {
+        let mut st = self.0.lock();
+        if st.reflex.client_closed_channels.contains(&ch) {
+            return false;
+        }
+        let bytes = crate::reflex::chan_close_frame(ch, code, text);
+        st.reflex.note_server_bytes(&bytes);
+        self.0.push_in(&mut st, bytes);
+        self.0.sync_ready(&mut st);
+        self.0.cv.notify_all();
+        true
+    }
+
     /// Queue bytes as exactly these chunks (a read never crosses a chunk boundary).
     pub fn inject_chunks(&self, chunks: Vec<Vec<u8>>) {
         let mut st = self.0.lock();
